@@ -105,6 +105,9 @@ structure Method where
   usesPrepare : Bool
   /-- the body is exactly `schema = get_schema(lit, lit, lit); op = Op(self, lit, schema); return op(…)` -/
   shapeOk : Bool
+  /-- `def Op(self, *args, **kwargs): raise NotImplementedError("…")`: shadows an inherited definition of an
+  operator that is deprecated from this class's version on (all other fields are empty then) -/
+  stub : Bool
   deriving Repr, Inhabited
 
 structure Cls where
@@ -238,27 +241,29 @@ def mirrors (m : Method) (s : Schema) : Bool :=
 
 /-- One cell: class of version `N` in domain `d`, operator `n`.
 * nothing in force, no method: fine;
-* a non-deprecated schema in force: a method must resolve and mirror it — unless the whole domain is a
-  documented ungenerated domain;
-* a deprecated schema in force: the generator emits nothing for it; whether an *older* definition is
-  still inherited is not constrained here (see `Props/C17`: it is, for three operators — a finding);
+* a non-deprecated schema in force: a live (non-stub) method must resolve and mirror it — unless the whole
+  domain is a documented ungenerated domain;
+* a deprecated schema in force: either nothing resolves, or a raising stub does — or the cell is one of the
+  `listed` cells of finding C17-F1, where an older live definition is still inherited;
 * a method without a schema in force: never. -/
-def cellOk (ungen : Bool) : Option Schema → Option Method → Bool
+def cellOk (ungen listed : Bool) : Option Schema → Option Method → Bool
   | none, none => true
-  | some s, some m => s.deprecated || mirrors m s
+  | some s, some m => if s.deprecated then m.stub || listed else !m.stub && mirrors m s
   | some s, none => s.deprecated || ungen
   | none, some _ => false
 
-def rowOk (schemas : List Schema) (classes : List Cls) (ungen : List Nat) (d n : Nat) : Bool :=
+def rowOk (schemas : List Schema) (classes : List Cls) (ungen : List Nat) (depLive : List (Nat × Nat × Nat))
+    (d n : Nat) : Bool :=
   selectS d n schemas [] fun S =>
   selectM d n classes [] fun M =>
   classes.all fun c =>
     c.domain != d ||
-      cellOk (ungen.contains d) (pick Schema.since c.version S none)
+      cellOk (ungen.contains d) (depLive.contains (d, c.version, n)) (pick Schema.since c.version S none)
         ((pick Prod.fst c.version M none).map Prod.snd)
 
-def gridOk (schemas : List Schema) (classes : List Cls) (ungen : List Nat) (d : Nat) (ns : List Nat) : Bool :=
-  ns.all (rowOk schemas classes ungen d)
+def gridOk (schemas : List Schema) (classes : List Cls) (ungen : List Nat) (depLive : List (Nat × Nat × Nat))
+    (d : Nat) (ns : List Nat) : Bool :=
+  ns.all (rowOk schemas classes ungen depLive d)
 
 /-- membership of (domain, name) in the chunks -/
 def inGrid (chunks : List (Nat × List Nat)) (d n : Nat) : Bool :=
@@ -288,6 +293,30 @@ def exportsOk (classes : List Cls) (exports : List Export) : Bool :=
   classes.all (fun c => exports.any (fun e =>
     c.name == e.cls && c.domain == e.domain && c.version == e.version)) &&
   exports.length == classes.length
+
+/-- a listed cell of C17-F1 is what it says: deprecated schema in force, a live inherited method, which binds
+another schema than the one dynamic lookup answers with -/
+def depLiveWitness (schemas : List Schema) (classes : List Cls) (d N n : Nat) : Bool :=
+  match lookup schemas d N n, resolve classes d N n with
+  | some s, some m =>
+    s.deprecated && !m.stub && !(m.call.1 == s.name && m.call.2.1 == s.since && m.call.2.2 == s.domain)
+  | _, _ => false
+
+/-- static and dynamic resolution of one name agree: both absent; or the same live schema; or — for a schema
+marked deprecated — the class offers nothing callable (no method, or a raising stub) -/
+def agrees : Option Schema → Option Method → Bool
+  | none, none => true
+  | some s, some m =>
+    if s.deprecated then m.stub
+    else !m.stub && (m.call.1 == s.name && m.call.2.1 == s.since && m.call.2.2 == s.domain)
+  | some s, none => s.deprecated
+  | none, some _ => false
+
+/-- the generated body forwards the method's own parameters, in order, under their own names -/
+def forwardsOwnParams (m : Method) : Bool :=
+  m.stub ||
+    (natBoolListBeq m.fwdInputs (expectedFwdInputs m) && (m.usesPrepare || m.fwdInputs.isEmpty) &&
+      natPairListBeq m.fwdAttrs (m.kwonly.map (fun p => (p.1, p.1))))
 
 /-! ## `Opset._prepare_inputs` -/
 
@@ -445,5 +474,84 @@ def separate (params : List SigParam) (args : List Nat) (kwargs : List (Nat × N
       -- `len(args) > len(op_signature.params)` with no variadic parameter = arguments left over
       if !allowExtraArgs && !hasVar && !rest.isEmpty then .error .tooManyArgs
       else .ok (ins, attrs)
+
+/-- an eager call on whatever the class exposes under the name: a stub raises -/
+def eagerCall (m : Method) (args : List (Option α)) (kw : List (Nat × Dflt)) : Option (Node α) :=
+  if m.stub then none else eagerNode m args kw
+
+/-! ## `Opset.__new__` with its class-level cache, and dynamic lookups, as a state machine over histories
+
+`Opset.cache : dict[(cls, domain, version) -> instance]`; `__new__` returns the cached instance or creates
+one, sets `instance.domain/version`, and records it.  `__getitem__/__contains__/__getattr__` read
+`self.version`, `self.domain` and the (immutable) schema registry — nothing else. -/
+
+structure Inst where
+  cls : Nat
+  domain : Nat
+  version : Nat
+  deriving Repr, DecidableEq, Inhabited
+
+structure OState where
+  /-- key ↦ index into `insts` -/
+  cache : List ((Nat × Nat × Nat) × Nat)
+  insts : List Inst
+  deriving Repr, Inhabited
+
+inductive Cmd where
+  /-- `cls(domain, version)` (for a generated class: `OpsetN()` with its literals) -/
+  | new (cls d v : Nat)
+  | getitem (i n : Nat)
+  | contains (i n : Nat)
+  | getattr (i n : Nat)
+  deriving Repr, Inhabited
+
+inductive Resp where
+  /-- the instance returned, with the `domain`/`version` it carries -/
+  | inst (i d v : Nat)
+  /-- `Op(self, n, schema)`'s schema key, or `None` -/
+  | op (k : Option (Nat × Nat × Nat))
+  | bool (b : Bool)
+  | attributeError
+  | noSuchInstance
+  deriving Repr, DecidableEq, Inhabited
+
+def cacheGet (k : Nat × Nat × Nat) : List ((Nat × Nat × Nat) × Nat) → Option Nat
+  | [] => none
+  | e :: es => if e.1 == k then some e.2 else cacheGet k es
+
+def step (schemas : List Schema) (st : OState) : Cmd → OState × Resp
+  | .new c d v =>
+    match cacheGet (c, d, v) st.cache with
+    | some i =>
+      match st.insts[i]? with
+      | some x => (st, .inst i x.domain x.version)
+      | none => (st, .noSuchInstance)
+    | none =>
+      let i := st.insts.length
+      (⟨((c, d, v), i) :: st.cache, st.insts ++ [⟨c, d, v⟩]⟩, .inst i d v)
+  | .getitem i n =>
+    match st.insts[i]? with
+    | some x => (st, .op ((lookup schemas x.domain x.version n).map Schema.key))
+    | none => (st, .noSuchInstance)
+  | .contains i n =>
+    match st.insts[i]? with
+    | some x => (st, .bool (lookup schemas x.domain x.version n).isSome)
+    | none => (st, .noSuchInstance)
+  | .getattr i n =>
+    match st.insts[i]? with
+    | some x =>
+      match lookup schemas x.domain x.version n with
+      | some s => (st, .op (some s.key))
+      | none => (st, .attributeError)
+    | none => (st, .noSuchInstance)
+
+def run (schemas : List Schema) : OState → List Cmd → OState × List Resp
+  | st, [] => (st, [])
+  | st, c :: cs =>
+    let r := step schemas st c
+    let rest := run schemas r.1 cs
+    (rest.1, r.2 :: rest.2)
+
+def OState.empty : OState := ⟨[], []⟩
 
 end OV.C17
